@@ -228,7 +228,7 @@ class Model:
     if mode.startswith('infeasible'):
       self._ok(cls, 'CompleteTrial(infeasible)')
       t['state'] = 'INFEASIBLE'
-      t['reason'] = 'bad'
+      t['reason'] = '' if mode == 'infeasible-noreason' else 'bad'
       if mode == 'infeasible+final':
         # documentation conflicts on whether a measurement supplied with an infeasible completion is kept
         t2 = dict(t)
